@@ -121,7 +121,14 @@ func newAllowList(k string, raw any, handleKey func(key string, value any) (bool
 			return nil, fmt.Errorf("config `%s` has invalid CIDR: %s. %w", k, rawCIDR, err)
 		}
 
-		ipNet = netip.PrefixFrom(ipNet.Addr().Unmap(), ipNet.Bits())
+		if ipNet.Addr().Is4In6() {
+			// An IPv4-mapped prefix describes IPv4 space, keep the prefix length in step with the unmapped address.
+			// Left as is, ::ffff:10.0.0.0/104 would become the invalid 10.0.0.0/104 and be silently dropped.
+			if ipNet.Bits() < 96 {
+				return nil, fmt.Errorf("config `%s` has invalid CIDR: %s. IPv4-mapped prefixes must be /96 or longer", k, rawCIDR)
+			}
+			ipNet = netip.PrefixFrom(ipNet.Addr().Unmap(), ipNet.Bits()-96)
+		}
 
 		tree.Insert(ipNet, value)
 
